@@ -14,15 +14,36 @@
 
 #include <fuzzer/FuzzedDataProvider.h>
 
+#include <map>
+
 namespace fsx {
-struct NullSink : Sink {
-  void cls(const char *) override {}
-  void cls(const std::string &) override {}
-  void nontrivial() override {}
+// counters for the driver (file named by VERIF_FUZZ_STATS, written at exit): executions, non-trivial cases,
+// cases per capacity, executed operations per kind
+struct CountingSink : Sink {
+  std::map<std::string, unsigned long> n;
+  unsigned long execs = 0, nontriv = 0;
+  void cls(const char *name) override { ++n[name]; }
+  void cls(const std::string &name) override { ++n[name]; }
+  void nontrivial() override { ++nontriv; }
   bool kf(const char *) override { return false; }
   void excl(const char *) override {}
+  void dump() {
+    const char *p = getenv("VERIF_FUZZ_STATS");
+    if (!p) return;
+    FILE *f = fopen(p, "w");
+    if (!f) return;
+    fprintf(f, "{\"execs\":%lu,\"with_words\":%lu", execs, nontriv);
+    for (auto &e : n) {
+      std::string k = e.first;
+      for (char &ch : k) if (ch == '.') ch = '_';
+      fprintf(f, ",\"%s\":%lu", k.c_str(), e.second);
+    }
+    fprintf(f, "}\n");
+    fclose(f);
+  }
 };
-Sink &sink() { static NullSink s; return s; }
+CountingSink &countingSink() { static CountingSink *s = new CountingSink; return *s; }   // never destroyed: read by the atexit handler
+Sink &sink() { return countingSink(); }
 }  // namespace fsx
 
 namespace {
@@ -100,7 +121,11 @@ void report(const Case &c, const char *which, const std::string &msg) {
 
 extern "C" int LLVMFuzzerTestOneInput(const uint8_t *data, size_t size) {
   static const bool withModel = !(getenv("FS_FUZZ_MODEL") && getenv("FS_FUZZ_MODEL")[0] == '0');
+  static const bool registered = (atexit([]() { countingSink().dump(); }), true);
+  (void)registered;
   Case c = decode(data, size);
+  ++countingSink().execs;
+  countingSink().cls("cap_" + std::to_string(c.cap));
   if (getenv("FS_FUZZ_DUMP")) fprintf(stderr, "%s", showCase(c).c_str());
   std::string m = runOn<false>(c);
   if (!m.empty()) report(c, "C10", m);
